@@ -332,6 +332,16 @@ def canSetMassFracs (a : α) (mf : NDens) : Bool :=
     else r1
   rho ≠ 0 && r2.2
 
+/-- what a REFUSED `setMassFracs` leaves behind: the listed fractions are applied one by one, so the calls before
+the first raising one have already been made (zero density raises before anything is changed; the
+re-normalisation of the remaining nuclides is never reached) -/
+def setMassFracsPrefix (a : α) (mf : NDens) : α :=
+  let rho := density o ph a
+  if rho = 0 then a else
+  (mf.foldl (fun (acc : α × Bool) q =>
+      let v := q.2 * rho * ph.K / ph.aw q.1
+      if acc.2 && o.canSet acc.1 q.1 v then (o.setND acc.1 q.1 v, true) else (acc.1, false)) (a, true)).1
+
 end Generic
 
 /-! ## component-level overrides -/
